@@ -11,7 +11,9 @@
 //
 // checks/shapes.py also writes the sub-packages pa/v1, pb/v1, pc/v1 (import paths harness/pa/v1, ...) next to
 // this file: all three are `package v1` and declare types of the same names, so that shapes can hold DISTINCT
-// types that reflect prints identically (`v1.ID`); shapes_gen.go imports them as v1a, v1b, v1c.
+// types that reflect prints identically (`v1.ID`); shapes_gen.go imports them as v1a, v1b, v1c.  Every batch also
+// declares CONTAINER types of equal names there (`v1.Box` of pa, pb and pc, with different or equal layouts, exported
+// fields only): runAll() unfolds, derives and executes optics for all of them in this one process.
 //
 // Panics are canonicalised to a small enum, never message text.  The GC is switched off: lens
 // tests fill guard-wrapped values with byte patterns (also in pointer slots) that are never
